@@ -40,7 +40,7 @@ PROBES = ["ca_validation_on_as_well", "cert_changed_detected", "unreadable_cert_
           "overlapping_ops_different_endpoints", "sql_fault_during_operation",
           "chain_revisits_an_endpoint", "connection_dropped_after_request_then_certificate_swap",
           "storage_fault_during_trust", "client_used_as_context_manager_in_between",
-          "restart_more_than_a_year_later", "certificate_changed_between_two_hops_of_one_chain"]
+          "restart_more_than_a_year_later", "storage_fault_while_client_is_created", "certificate_changed_between_two_hops_of_one_chain"]
 COMPONENTS = {
     "real": ["nauyaca.client.session.GeminiClient (get/upload/delete, redirects)",
              "nauyaca.client.protocol", "nauyaca.security.tofu.TOFUDatabase on a real sqlite file",
@@ -78,7 +78,7 @@ def run_one(ch):
     nops = 1 + ch.choose("nops", 12)
     model = {}
     st = {"hist": [], "changed": 0, "unreadable": 0, "redir": 0, "first": 0, "match": 0,
-          "import": 0, "mutation": 0, "upload": 0, "refetch": 0, "failing": 0, "concurrent": 0, "nearmiss": 0, "mixedcase": 0, "speakfirst": 0, "failedimport": 0, "overlapdiff": 0, "sqlfault": 0, "revisit": 0, "revisit_changed": 0, "dropswap": 0, "trustfault": 0, "ctxmgr": 0, "yearlater": 0}
+          "import": 0, "mutation": 0, "upload": 0, "refetch": 0, "failing": 0, "concurrent": 0, "nearmiss": 0, "mixedcase": 0, "speakfirst": 0, "failedimport": 0, "overlapdiff": 0, "sqlfault": 0, "revisit": 0, "revisit_changed": 0, "dropswap": 0, "trustfault": 0, "ctxmgr": 0, "yearlater": 0, "ctorfault": 0}
     revoked = set()
 
     def endpoint(label):
@@ -123,10 +123,34 @@ def run_one(ch):
                 # more than a year passes (virtual wall clock) and the program is restarted:
                 # a new client object on the same store - pins do not expire
                 await asyncio.sleep(400 * 86400.0)
-                client = GeminiClient(timeout=20.0, trust_on_first_use=tofu_on, verify_ssl=ca_mode,
-                                      tofu_db_path=pathlib.Path(w.db_path))
-                db = client.tofu_db if tofu_on else TOFUDatabase(pathlib.Path(w.db_path))
-                st["hist"].append("400 days later: new client object on the same store")
+                # ... possibly while the store hiccups: then no client comes into being - never
+                # one that silently works without the pins
+                SEAM.fired = None
+                if tofu_on and ch.chance("ctorfault", 0.4):
+                    SEAM.fault_at = SEAM.tick + 1 + ch.choose("ctortick", 3)
+                    SEAM.fault_kind = "error:" + ch.pick("ctorerr", ["database is locked", "disk I/O error",
+                                                                      "unable to open database file"])
+                try:
+                    newc = GeminiClient(timeout=20.0, trust_on_first_use=tofu_on, verify_ssl=ca_mode,
+                                        tofu_db_path=pathlib.Path(w.db_path))
+                except Exception as e:  # noqa
+                    newc = None
+                    st["hist"].append(f"400 days later: creating a new client failed ({type(e).__name__})")
+                SEAM.fault_at = None
+                if SEAM.fired:
+                    st["ctorfault"] += 1
+                if newc is not None:
+                    client = newc
+                    if tofu_on and (client.tofu_db is None or
+                                    str(getattr(client.tofu_db, "db_path", "")) != str(w.db_path)):
+                        res.violate("C03/client-without-its-pin-store",
+                                    "a storage fault while the client was created produced a client that "
+                                    "does not check pins against the configured store",
+                                    history=st["hist"][-6:])
+                        client = GeminiClient(timeout=20.0, trust_on_first_use=tofu_on, verify_ssl=ca_mode,
+                                              tofu_db_path=pathlib.Path(w.db_path))
+                    db = client.tofu_db if tofu_on else TOFUDatabase(pathlib.Path(w.db_path))
+                    st["hist"].append("400 days later: new client object on the same store")
                 st["yearlater"] += 1
                 check_table(st["hist"][-1])
                 continue
@@ -637,6 +661,7 @@ def run_one(ch):
               "storage_fault_during_trust": "trustfault",
               "client_used_as_context_manager_in_between": "ctxmgr",
               "restart_more_than_a_year_later": "yearlater",
+              "storage_fault_while_client_is_created": "ctorfault",
               "certificate_changed_between_two_hops_of_one_chain": "revisit_changed"}
     for probe, k in st_map.items():
         if st[k]:
